@@ -24,7 +24,9 @@ META = {
             "reindex_verts_preserves_inv (for every vertNew2Old), stable_sort_contract (the sort model is a stable sort), exec_remove_unreferenced_derived and "
             "sort_geometry_no_tombstone_partial (table rows derived from the ported functions), compaction_exports_closed (round 3: from HalfedgeInv + NaN-iff-unreferenced + "
             "no live directed edge twice, for every pair of Morton orders meeting their contracts, SortVerts then SortFaces then GetMeshGLImpl's index emission give a "
-            "Closed2Manifold that check_mesh accepts - whenever the two ported calls are defined). PROVED for a stated bound only: "
+            "Closed2Manifold that check_mesh accepts - whenever the two ported calls are defined). Round 4: the oracle is check_mesh_v = check_mesh && check_vertex_manifold, proved for all inputs "
+            "(check_mesh_v_iff, check_vertex_manifold_iff) to decide Closed2ManifoldV = edge-manifoldness AND one umbrella per vertex (the link of every vertex is one duplicate-free "
+            "directed cycle); a pinched vertex is reported as pinched-vertex@<op>. PROVED for a stated bound only: "
             "is_manifold_gate_partial (ported CreateHalfedges + IsManifold: accepted iff directed edges balance, HalfedgeInv and opposed-pair removal facts, "
             "exhaustively for all lists of <= 3 triangles over 4 vertices, a 14 400-list family of 4 triangles, and all pairs over 5 vertices). "
             "CHECKED, not proved: the pass tables are read from src/*.cpp by translate/c01_pipeline.py and judged by the extracted pipeline_ok (a rejected pipeline is a "
@@ -57,7 +59,7 @@ def f3(x):
 
 def polys(rng):
     """A small catalogue of 2-D inputs: simple, holed, disjoint, touching, degenerate."""
-    k = rng.randrange(9)
+    k = rng.randrange(12)
     ox, oy = rng.choice([0, 0, 0.5, -0.3, 1.0]), rng.choice([0, 0, 0.25, -0.5])
     s = rng.choice([0.5, 1.0, 1.5])
 
@@ -83,8 +85,20 @@ def polys(rng):
         ps = [sq(ox, oy, s, s), sq(ox + s, oy, s, s)]
     elif k == 7:                                   # overlapping squares (self-overlapping input)
         ps = [sq(ox, oy, s, s), sq(ox + s / 2, oy + s / 2, s, s)]
-    else:                                          # hole touching the outer boundary
+    elif k == 8:                                   # hole touching the outer boundary
         ps = [sq(ox, oy, 2 * s, 2 * s), sq(ox, oy + s / 2, s, s, ccw=False)]
+    elif k == 9:                                   # contour touching the y axis (the Revolve axis) in ONE vertex
+        ps = [[(0, oy), (s, oy - s), (2 * s, oy), (s, oy + s)]]
+    elif k == 10:                                  # two contours touching the axis in the same point, and one in two points
+        ps = [[(0, 0), (s, -s), (s, -s / 4)], [(0, 0), (s, s / 4), (s, s)]]
+        if rng.random() < 0.5:
+            ps = [[(0, 0), (s, s / 2), (0, s), (s / 2, s / 2 + 0.0)][:3] + [(0, s)], [(0, 2 * s), (s, 2 * s), (s, 3 * s)]]
+    else:                                          # star with one tip exactly on the axis
+        n = rng.choice([4, 5, 8])
+        import math
+        ps = [[(s + (s if i % 2 == 0 else 0.4 * s) * math.cos(math.pi + math.pi * i / n),
+                oy + (s if i % 2 == 0 else 0.4 * s) * math.sin(math.pi + math.pi * i / n)) for i in range(2 * n)]]
+        ps[0][0] = (0.0, oy)
     toks = [str(len(ps))]
     for p in ps:
         toks.append(str(len(p)))
@@ -480,15 +494,18 @@ def judge(drv, mesh_lines, nproc=8):
     outs = [None] * len(chunks)
 
     def work(i):
-        outs[i] = vp.sh2("ulimit -s unlimited 2>/dev/null || ulimit -s 1000000 2>/dev/null; exec %s" % drv, input="\n".join(chunks[i]) + "\n", timeout=1700)
+        # a big minor heap: with the deep (non tail-recursive) extracted list functions every minor collection scans the stack
+        outs[i] = vp.sh2("ulimit -s unlimited 2>/dev/null || ulimit -s 1000000 2>/dev/null; exec %s" % drv, input="\n".join(chunks[i]) + "\n",
+                         timeout=1700, env={"OCAMLRUNPARAM": "s=16M"})
     th = [threading.Thread(target=work, args=(i,)) for i in range(len(chunks))]
     [t.start() for t in th]
     [t.join() for t in th]
     for rc, out, err in outs:
         for l in out.splitlines():
             t = l.split()
-            if len(t) == 4 and t[0] == "V":
-                verdict[t[1]] = (t[2] == "1", t[3] == "1")
+            if len(t) == 5 and t[0] == "V":
+                # (edge-manifold check_mesh, check_counts, check_mesh && check_vertex_manifold)
+                verdict[t[1]] = (t[2] == "1", t[3] == "1", t[4] == "1")
     return verdict
 
 
@@ -578,14 +595,14 @@ def evaluate(cx, exe, drv, progs, nproc, timeout=1500, alarm=15):
             else:
                 if nT > 0:
                     stats["nonempty"] += 1
-                if not (v[0] and v[1]):
-                    why = diagnose(ml)
+                if not (v[0] and v[1] and v[2]):
+                    why = diagnose(ml) if not v[0] else ("pinched-vertex" if not v[2] else diagnose(ml))
                     key = why + "@" + op
-                    if why in ("unreferenced-vertex", "odd-euler-characteristic", "count-mismatch") and op in ("refinelen", "refinetol", "refine"):
+                    if why in ("unreferenced-vertex", "odd-euler-characteristic", "count-mismatch") and op in ("refinelen", "refinetol", "refine") and v[2]:
                         key = "refine-strands-vertex"
                     head = ml.split(None, 9)[2:8]
-                    desc = ("value %s (result of `%s`) has Status NoError but the extracted check_mesh=%d check_counts=%d: %s "
-                            "(merged nV=%s NumVert=%s NumEdge=%s NumTri=%s Genus=%s)" % (vid, " ".join(ins[k][:6]) if k < len(ins) else "?", v[0], v[1], why, head[0], head[1], head[2], head[3], head[4]))
+                    desc = ("value %s (result of `%s`) has Status NoError but the extracted check_mesh=%d check_vertex_manifold=%d check_counts=%d: %s "
+                            "(merged nV=%s NumVert=%s NumEdge=%s NumTri=%s Genus=%s)" % (vid, " ".join(ins[k][:6]) if k < len(ins) else "?", v[0], v[2], v[1], why, head[0], head[1], head[2], head[3], head[4]))
                 elif finPos == 0:
                     key, desc = "nonfinite-position@" + op, "value %s has Status NoError but a non-finite vertex position" % vid
                 elif finProp == 0:
@@ -762,7 +779,8 @@ def pipeline_verdicts(cx, drv, pipes, findings_by_variant, exe, progs_seen):
         if ok:
             cx.obligation("pipeline:" + d["name"], True)
             continue
-        STRAND = ("refine-strands-vertex", "unreferenced-vertex", "count-mismatch", "odd-euler-characteristic", "index-out-of-range")
+        STRAND = ("refine-strands-vertex", "unreferenced-vertex", "count-mismatch", "odd-euler-characteristic", "index-out-of-range",
+                  "pinched-vertex", "duplicate-directed-edge")
         hits = [f for f in findings_by_variant if f[5] in d["ops"] and f[2].startswith(STRAND)]
         if not hits:
             # search aimed at the rejected pipeline: programs that end in one of its operations
@@ -795,7 +813,7 @@ def pipeline_verdicts(cx, drv, pipes, findings_by_variant, exe, progs_seen):
         table[d["name"]]["explained_by"] = sorted({h[2] for h in hits})
         if not hits:
             cx.broke("pipeline:" + d["name"], "pipeline_ok rejects the pass list of %s read from %s: %s (fresh=%s) - a vertex stranded by %s is never "
-                     "tombstoned before SortGeometry; no concrete failing input found" % (
+                     "tombstoned before SortGeometry, or duplicate edges / pinched vertices are never split by CleanupTopology; no concrete failing input found" % (
                          d["name"], d["file"], " ; ".join(d["passes_abs"]), d["fresh"],
                          "CreateHalfedges/Subdivide" if not d["fresh"] else "the generator or CreateHalfedges"))
         else:
@@ -1161,7 +1179,7 @@ def ops_correspondence(cx, drv):
     ver = judge(drv, exported, 4)
     for l in exported:
         k = l.split()[1]
-        if not ver.get(k, (False, False))[0]:
+        if not ver.get(k, (False, False, False))[2]:
             bad_export += 1
             fam, nV, H, ops = cases[k]
             cx.violation("compaction-not-closed", "after SortVerts+SortFaces of a valid state the exported triangles fail the extracted check_mesh", {"case": ops_line(k, nV, H, ops)})
@@ -1288,13 +1306,13 @@ def cleanup_oracle(cx, drv):
             continue
         tag = "kind%d/%s" % (kind, "N<=32" if N <= 32 else "N>32")
         dist[tag] = dist.get(tag, 0) + 1
-        if res[k] != "1 1 1" or not ver.get(k, (False, False))[0]:
+        if res[k] != "1 1 1" or not ver.get(k, (False, False, False))[2]:
             bad += 1
             if bad <= 3:
                 cx.violation("cleanup-leaves-non-2-manifold",
                              "CleanupTopology (SplitPinchedVerts + DedupeEdges) on an even-manifold state (kind %d, fans of %d triangles at the shared vertices) followed by "
-                             "SortVerts+SortFaces: extracted halfedge_inv/nan_iff_unreferenced/in_range = %s, extracted check_mesh = %s (a directed edge still occurs twice or a vertex is pinched)" % (
-                                 kind, N, res[k], int(ver.get(k, (False, False))[0])),
+                             "SortVerts+SortFaces: extracted halfedge_inv/nan_iff_unreferenced/in_range = %s, extracted check_mesh/check_vertex_manifold = %s (a directed edge still occurs twice or a vertex is pinched)" % (
+                                 kind, N, res[k], [int(x) for x in ver.get(k, (False, False, False))[0::2]]),
                              {"case": ops_line(k, nV, H, ops), "fan": N, "kind": kind})
     cx.cov["cleanup_oracle"] = {"cases": len(cases), "judged": len(res), "rejected": bad, "distribution": dist}
     cx.log("cleanup oracle: %d even-manifold states, %d judged by extracted invariants + check_mesh, %d rejected; %s" % (len(cases), len(res), bad, dist))
